@@ -93,4 +93,23 @@ void CrabEnableWarningMsg(bool b);
 extern bool CrabSanityCheckFlag;
 void CrabEnableSanityChecks(bool b);
 
+#ifdef CRAB_VERIF_SIM
+/* Verification hooks H2/H3 (off by default). tick() is the only
+   "clock" of a simulated analysis run: it counts fixpoint steps and
+   may unwind when a step budget is exceeded. unusual(site) lets the
+   simulator force a legal-but-rare outcome at a fault point. Both are
+   defined by the harness. */
+namespace verif {
+void tick();
+bool unusual(const char *site);
+} // namespace verif
+#define CRAB_VERIF_TICK() ::crab::verif::tick()
+#define CRAB_VERIF_UNUSUAL(SITE) (::crab::verif::unusual(SITE))
+#else
+#define CRAB_VERIF_TICK()                                                      \
+  do {                                                                         \
+  } while (0)
+#define CRAB_VERIF_UNUSUAL(SITE) (false)
+#endif
+
 } // end namespace crab
